@@ -1764,6 +1764,10 @@ class ListBox(Widget, WidgetContainerMixin):
             if not rows:
                 continue
 
+            if row_offset + rows <= 0:
+                # scrolled off the top edge entirely: not on the new page
+                continue
+
             # try selecting this widget
             pref_row = min(maxrow - row_offset - 1, rows - 1)
 
@@ -1820,6 +1824,9 @@ class ListBox(Widget, WidgetContainerMixin):
                 continue
 
             if not rows:  # never focus a 0-height widget
+                continue
+
+            if row_offset + rows <= 0:  # nor one that is off the top edge entirely
                 continue
 
             # if completely within snap region, adjust row_offset
